@@ -255,6 +255,7 @@ func (w *worker[T, JobType]) dispatchNextJob(mayDispatch func() bool) error {
 	// if an event loop that Restart has superseded is still on its way out next to the new one.
 	for {
 		processing := w.curProcessing.Load()
+		vhook("disp.cas.load")
 
 		if processing >= w.concurrency.Load() {
 			return nil
@@ -397,6 +398,7 @@ func (w *worker[T, JobType]) initPoolNode() *linkedlist.Node[pool.Node[JobType]]
 	go node.Value.Serve(func(j JobType) {
 		vhook("serve.recv", node, j)
 		w.workerFunc(j)
+		vhook("serve.wfdone", j)
 
 		j.changeStatus(finished)
 		vhook("serve.fin", j)
@@ -474,6 +476,7 @@ func (w *worker[T, JobType]) goRemoveIdleWorkers() {
 			// If we have more nodes than our target, close the excess ones
 			for _, node := range nodes[targetIdleWorkers:] {
 				if node.Value.GetLastUsed().Add(interval).Before(time.Now()) {
+					vhook("reap.expired", node)
 					// the dispatcher may have popped the node since the snapshot was taken (Remove then
 					// reports false): only the goroutine that unlinks a node owns it
 					if w.pool.Remove(node) {
@@ -611,6 +614,7 @@ func (w *worker[T, JobType]) TunePool(concurrency int) error {
 	if w.status.Load() != running {
 		return ErrNotRunningWorker
 	}
+	vhook("tune.checked")
 
 	oldConcurrency := w.concurrency.Load()
 	safeConcurrency := withSafeConcurrency(concurrency)
@@ -686,6 +690,7 @@ func (w *worker[T, JobType]) stop(listened context.Context) error {
 	// they must not interleave (e.g. the context listener's Stop with a Restart)
 	w.lifecycleMx.Lock()
 	defer w.lifecycleMx.Unlock()
+	vhook("lifecycle.locked")
 
 	if listened != nil {
 		w.mx.RLock()
@@ -736,6 +741,7 @@ func (w *worker[T, JobType]) NumPending() int {
 func (w *worker[T, JobType]) Restart() error {
 	w.lifecycleMx.Lock()
 	defer w.lifecycleMx.Unlock()
+	vhook("lifecycle.locked")
 
 	// If worker is running, pause and wait for ongoing processes
 	switch w.status.Load() {
